@@ -226,6 +226,41 @@ def run_sched(sc):
     return {'ops': ops, 'outs': outs, 'state': st if keys_ok else None}
 
 
+def run_shutdown(sc):
+    """The real Process._shutdown on a fresh exit-action queue: registrations, then shutdown; the k-th action that
+    runs performs chunk k on main._atexitq (register / move / unregister actions, look at the queue)."""
+    from sc3.base.main import Process
+    saved = Process._atexitq
+    q = type(saved)()
+    Process._atexitq = q
+    order, chunks, acts = [], [list(c) for c in sc['chunks']], {}
+
+    def act(i):
+        if i not in acts:
+            def f():
+                order.append(i)
+                for o in (chunks.pop(0) if chunks else []):
+                    do(o)
+            acts[i] = f
+        return acts[i]
+
+    def do(o):
+        if o[0] == 'add': main._atexitq.add(int(o[1]), act(o[2]))
+        elif o[0] == 'remove': main._atexitq.remove(act(o[1]))
+        elif o[0] == 'peek':
+            try: main._atexitq.peek(bool(o[1]))
+            except KeyError: pass
+        elif o[0] == 'empty': main._atexitq.empty()
+        else: list(main._atexitq)
+    try:
+        for o in sc['init']:
+            do(o)
+        main._shutdown()
+        return {'order': order, 'empty': bool(q.empty()), 'left': len(list(q))}
+    finally:
+        Process._atexitq = saved
+
+
 def run_ppar(sc):
     from sc3.seq import event as evt
     from sc3.seq.patterns.eventpatterns import Pbind, Ppar
@@ -252,7 +287,7 @@ def main_():
     out = []
     for sc in spec['scenarios']:
         try:
-            out.append({'clock': run_clock, 'score': run_score, 'ppar': run_ppar, 'sched': run_sched}[sc['kind']](sc))
+            out.append({'clock': run_clock, 'score': run_score, 'ppar': run_ppar, 'sched': run_sched, 'shutdown': run_shutdown}[sc['kind']](sc))
         except BaseException as e:          # never let one scenario kill the run
             out.append({'error': '%s: %s' % (type(e).__name__, e)})
     try:
